@@ -15,10 +15,10 @@ def lemmas(tier):
     gen = ("general shapes (arrays+objects, depth<=3)", "objects with several members (keys of length 0/1, scalar values, NOP runs <= 3)")
     plan = {
         "FindKey": ("T3.FindKey", {0: (range(4, 9), range(4, 10)), 1: (range(7, 12), range(7, 14))}),
-        "FindPath": ("T3.FindPath", {0: (range(4, 8), range(4, 9)), 1: (range(7, 11), range(7, 13))}),
+        "FindPath": ("T3.FindPath", {0: (range(4, 8), range(4, 9)), 1: (range(7, 12), range(7, 13))}),
         "FindElementArrayRoot": ("T3.FindElementArray", {None: (range(4, 8), range(4, 9))}),
         "ForEachFilter": ("T3.ForEachFilter", {0: (range(4, 8), range(4, 9)), 1: (range(7, 12), range(7, 14))}),
-        "ParseLookup": ("T3.Parse", {0: (range(4, 8), range(4, 9)), 1: (range(7, 11), range(7, 13))}),
+        "ParseLookup": ("T3.Parse", {0: (range(4, 8), range(4, 9)), 1: (range(7, 12), range(7, 13))}),
         "Interface": ("T3.Interface", {0: (range(4, 9), range(4, 10)), 1: (range(7, 12), range(7, 14))}),
         "ArrayAsString": ("T3.AsString", {None: (range(4, 8), range(4, 10))}),
     }
